@@ -312,6 +312,27 @@ MODES = {
 }
 
 
+def mode_edits_in_place(f):
+    """Statements of an edit-mode function that write into the selection object the edited subset currently holds
+    (``edit_subset.subset_state`` or a local alias of it): attribute / item stores and in-place list calls on its fields."""
+    p = f.params
+    old_aliases = {'%s.subset_state' % p[0]}
+    for st in walk_no_nested(f.node):
+        if isinstance(st, ast.Assign) and len(st.targets) == 1 and isinstance(st.targets[0], ast.Name) and unparse(st.value) in old_aliases:
+            old_aliases.add(st.targets[0].id)
+    edits = []
+    for st in walk_no_nested(f.node):
+        tg = st.targets if isinstance(st, ast.Assign) else ([st.target] if isinstance(st, ast.AugAssign) else [])
+        for t_ in tg:
+            if isinstance(t_, (ast.Attribute, ast.Subscript)) and unparse(t_.value) in old_aliases:
+                edits.append(st)
+        if isinstance(st, ast.Expr) and isinstance(st.value, ast.Call) and isinstance(st.value.func, ast.Attribute) and \
+                isinstance(st.value.func.value, ast.Attribute) and unparse(st.value.func.value.value) in old_aliases and \
+                st.value.func.attr in ('append', 'extend', 'insert', 'remove', 'pop', 'clear', 'update'):
+            edits.append(st)
+    return edits
+
+
 def rule_c(ctx, ix):
     R = 'C01.c'
     ctx.describe(R, 'edit modes: truth table of the state stored into the edited subset', floor=8)
@@ -325,22 +346,7 @@ def rule_c(ctx, ix):
         p = f.params
         if len(p) != 2:
             raise AnalysisError('%s: unexpected signature' % f.construct)
-        # "combining never alters the operands": the mode builds a new state; it does not write into the selection object the
-        # subset currently has (undo snapshots, other subsets of the group and composites hold that very object)
-        old_aliases = {'%s.subset_state' % p[0]}
-        for st in walk_no_nested(f.node):
-            if isinstance(st, ast.Assign) and len(st.targets) == 1 and isinstance(st.targets[0], ast.Name) and unparse(st.value) in old_aliases:
-                old_aliases.add(st.targets[0].id)
-        edits = []
-        for st in walk_no_nested(f.node):
-            tg = st.targets if isinstance(st, ast.Assign) else ([st.target] if isinstance(st, ast.AugAssign) else [])
-            for t_ in tg:
-                if isinstance(t_, (ast.Attribute, ast.Subscript)) and unparse(t_.value) in old_aliases:
-                    edits.append(st)
-            if isinstance(st, ast.Expr) and isinstance(st.value, ast.Call) and isinstance(st.value.func, ast.Attribute) and \
-                    isinstance(st.value.func.value, ast.Attribute) and unparse(st.value.func.value.value) in old_aliases and \
-                    st.value.func.attr in ('append', 'extend', 'insert', 'remove', 'pop', 'clear', 'update'):
-                edits.append(st)
+        edits = mode_edits_in_place(f)
         if edits:
             ctx.ob(R, f.construct, '%s does not edit the current selection object in place' % name, False,
                    detail='%s writes into the selection object the subset currently holds (`%s`) instead of building a new state: the '
